@@ -5,6 +5,7 @@ mod util;
 mod arith;
 mod c01;
 mod c02;
+mod c03;
 mod c08;
 mod c10;
 mod c11;
@@ -37,6 +38,8 @@ fn main() {
     match (mode.as_str(), prop.as_str()) {
         ("gen", "C01") => c01::generate(&a),
         ("gen", "C10") => c10::generate(&a),
+        ("gen", "C03") => c03::generate(&a),
+        ("gen", "C03dbg") => c03::debug(&a),
         ("gen", "C04") => arith::generate_c04(&a),
         ("gen", "C05") => arith::generate_c05(&a),
         ("gen", "C02") => c02::generate_c02(&a),
